@@ -119,6 +119,9 @@ package dag
 //@   check [updated]  result.Status == entity.MergeStatusUpdated ==> (localRef in refs0) && l != r && !repository.anc(r, l) && repository.refs == update(refs0, localRef, repository.refs[localRef])
 //@   check [fast-forward] result.Status == entity.MergeStatusUpdated && repository.anc(l, r) ==> repository.refs[localRef] == r
 //@   check [no-loss]  result.Status == entity.MergeStatusUpdated ==> repository.anc(l, repository.refs[localRef]) && repository.anc(r, repository.refs[localRef])
+// (C06) the merge commit is stamped with a time taken from - and therefore already persisted in - the repository
+// clock before the commit is written and the ref moved
+//@   assert at `commitHash, err := opp.Write(def, repo, localCommit, remoteCommit)` [merge-commit-stamped-from-the-clock] repository.clockSeen[def.Namespace + "-edit"] >= opp.EditTime && repository.refs == refs0
 //@   check [entity-is-merged-result] result.Status == entity.MergeStatusNew || result.Status == entity.MergeStatusUpdated ==> result.Entity != nil && entity.entityHead(result.Entity) == repository.refs[localRef]
 //@   check [error-keeps-ancestors] result.Status == entity.MergeStatusError && (localRef in refs0) ==> (localRef in repository.refs) && repository.anc(l, repository.refs[localRef])
 //@   loop 1
